@@ -936,7 +936,7 @@ def _neg_verdict(o):
                               "fsm:AE_1..AE_8"],
     bounds="both sides start idle; the requestor's user associates and then releases / aborts, or the acceptor rejects (called AE "
            "title not recognised) (shard); schedule prefix of length <= %d over the 5 threads, an ACSE timeout firing early at any "
-           "of the steps 1..%d or only when nothing else can run (quick: prefix or early timeout; thorough: both)" % (LN, FIRE_NEG),
+           "of the steps 1..%d or only when nothing else can run (a prefix or an early timeout, not both)" % (LN, FIRE_NEG),
     stubs=_COSIM_STUBS + ["vlib/stubs/cosim_neg.py: accepted connection = Evt5 queued at the acceptor; requestor's dul.start() "
                           "suppressed; pynetdicom.transport.socket replaced by sock8's fake module (no name resolution); one "
                           "presentation context (Verification / Implicit VR LE)"],
@@ -947,7 +947,11 @@ def cosim_negotiation(schedule: List[int], fire_at: int) -> bool:
     """
     pre: len(schedule) <= LN and all(0 <= c < 5 for c in schedule)
     pre: -1 <= fire_at <= FIRE_NEG and fire_at != 0
-    pre: PRODUCT or len(schedule) == 0 or fire_at == -1
+    pre: len(schedule) == 0 or fire_at == -1
     post: _ == True
     """
+    # A schedule prefix is NOT combined with an early ACSE timeout here (the first thorough run did, and reported the
+    # acceptor's association thread giving up before the A-ASSOCIATE-RQ had arrived: kill() then waits for the provider
+    # to leave Sta2, which only the ARTIM timer does - and the co-simulation clock is frozen, ARTIM expiry is not
+    # modelled (stated assumption; ARTIM is C05 / C08 / C09).  That combination is outside this harness.)
     return _neg_verdict(_run_neg(schedule, fire_at))
